@@ -91,6 +91,41 @@ func spineScenario(cf conf, wide []instr, part, nparts int) engine.Scenario {
 	}}
 }
 
+// qmulScenario: on one configuration of qmulConfigs, every ciphertext x ciphertext product instruction (Mul, MulRelin
+// of the scale-invariant evaluator and the explicit Mul(Relin)ScaleInvariant entry points; other register, squaring;
+// New form and in place) at every level of the chain, with the exact mod-t oracle of the register machine.
+func qmulScenario(cf conf) engine.Scenario {
+	name := "qmul-boundary/" + cf.Name
+	st := newScenState(name)
+	var prods []instr
+	for _, op := range []opcode{opMul, opMulRelin, opMulSI, opMulRelinSI} {
+		prods = append(prods, instr{op, 0, kCtOther, 0, dNew}, instr{op, 0, kCtSelf, 0, dInPlace})
+	}
+	return engine.Scenario{Name: name, Bound: -1, Fn: func(c *engine.Chooser) {
+		m := newMachine(c, cf, st)
+		if m == nil {
+			return
+		}
+		c.Cover("pattern", "qmul-boundary")
+		w := m.w
+		level := w.L - c.Choose(w.L+1, "level")
+		for l := w.L; l > level; l-- {
+			// both operands go down: the tensoring then runs on ciphertexts that really live at that level
+			if !m.step(c, 1000, instr{opDropLevel, 0, kNone, 0, dInPlace}, false) || !m.step(c, 1001, instr{opDropLevel, 1, kNone, 0, dInPlace}, false) {
+				return
+			}
+		}
+		bits := w.Q[level].BitLen()
+		c.Cover("qmul-bitlen+logN", fmt.Sprintf("%d", bits+w.params.LogN()))
+		c.Cover("qmul-ring", fmt.Sprintf("logN=%d slots=%d", w.params.LogN(), w.n))
+		c.Note("level %d: bitlen(Q_l)=%d LogN=%d LogMaxSlots=%d", level, bits, w.params.LogN(), w.params.LogMaxSlots())
+		i := c.Choose(len(prods), "product")
+		if m.step(c, i, prods[i], true) {
+			c.Cover("qmul-judged", fmt.Sprintf("logN=%d", w.params.LogN()))
+		}
+	}}
+}
+
 func newMachine(c *engine.Chooser, cf conf, st *scenState) *machine {
 	w := getWorld(c, cf, cf.name())
 	c.Cover("mode", map[bool]string{false: "bgv", true: "bfv"}[cf.si])
@@ -280,6 +315,9 @@ func collisionScenario() engine.Scenario {
 func scenarios(tier string) []engine.Scenario {
 	var scs []engine.Scenario
 	scs = append(scs, collisionScenario())
+	for _, cf := range qmulConfigs() {
+		scs = append(scs, qmulScenario(cf))
+	}
 	wide := wideAlphabet([]int{0, 3})
 	core := coreAlphabet()
 	for _, cf := range configs(tier) {
@@ -308,6 +346,7 @@ func main() {
 		Level: "model_checking",
 		Rule: "State machine = 4 ciphertext registers (model: slot vector over Z_t, level, degree, scale, noise bound). An instruction is (opcode, op0 register, operand kind, value variant, destination form); " +
 			"quick enumerates ALL programs core x wide and wide x core (length 2) plus the MulRelin+Rescale spine to level 0 with at most one deviating step; thorough ALL programs wide x wide and core^3. " +
+			"Plus the qmul-boundary family: scale-invariant ct x ct products at every level of chains whose bit lengths sweep the steps of the auxiliary-basis table (LogN 10: every bit length 50..61 and 110..122; LogN 4: bitlen+LogN in 61k-1..61k+2). " +
 			"After every instruction: documented error / level / degree / scale, then decrypt+Decode with the recorded scale must equal the model in every slot. " +
 			"A refused instruction is executed once and not extended. distinct_nontrivial counts distinct (opcode, operand kind, decoded vector, level, degree, scale) observations.",
 		Assumptions: []string{
@@ -322,7 +361,14 @@ func main() {
 		ThoroughBudget: 25 * time.Minute,
 		Expect: func(tier string) []string {
 			e := []string{"mode=bgv", "mode=bfv", "t=97", "t=17-gap2", "t=65537", "t=30bit", "t=60bit", "scales=mismatched", "scales=equal",
-				"levels=different", "levels=equal", "budget=exceeded", "rescale=nop-bfv", "spine=reached-level-0", "pattern=spine"}
+				"levels=different", "levels=equal", "budget=exceeded", "rescale=nop-bfv", "spine=reached-level-0", "pattern=spine", "pattern=qmul-boundary",
+				"qmul-judged=logN=10", "qmul-judged=logN=4", "qmul-ring=logN=10 slots=8", "qmul-ring=logN=10 slots=16", "qmul-ring=logN=10 slots=1024",
+				"qmul-ring=logN=4 slots=8", "qmul-ring=logN=4 slots=16"}
+			for _, k := range []int{1, 2} {
+				for d := -1; d <= 2; d++ {
+					e = append(e, fmt.Sprintf("qmul-bitlen+logN=%d", 61*k+d))
+				}
+			}
 			for _, n := range opNames {
 				e = append(e, "op="+n)
 			}
